@@ -174,6 +174,18 @@ EXTRA3 = {
  "C18": "; the parser object run again (reparse_check)",
  "C11": "; TLC's counterexamples for the two named deviations of Cli.tla replayed as forced schedules on the real binary",
 }
+# round 5
+EXTRA4 = {
+ "C11": "; cold start (in fresh processes the first use of the library is 16 concurrent pipelines)",
+ "C12": "; trees as the formatter leaves them; the yacc obligation check",
+ "C05": "; tokens of 9-130 lines beginning in column 0",
+ "C08": "; comments that contain code or begin like something else",
+ "C02": "; the yacc obligation check",
+ "C10": "; the yacc obligation check; static arrays with a trailing comma",
+ "C17": "; every operator chain of the exhaustive set of C03",
+}
+for k, t1 in EXTRA4.items():
+    EXTRA3[k] = EXTRA3.get(k, "") + t1
 for k, t1 in EXTRA3.items():
     CLAIMED[k]["technique"] += t1
 
